@@ -245,6 +245,18 @@ def run (z : Zstd) (fd : FloatDec) (f : List String) : String :=
          | .err => "ERR"
          | .panic => "PANIC")
     | _, _ => "bad-op"
+  | "col" :: t :: a =>
+    match parseVT t, parseItems a with
+    | some vt, some its =>
+      match encodeColumn z fd its vt with
+      | .ok enc =>
+        (match decodeColumn z fd enc vt its.length with
+         | .ok xs => hexOrDash enc ++ " " ++ (if xs = its then "=" else "NE " ++ showItems xs)
+         | .err => "ERR"
+         | .panic => "PANIC")
+      | .err => "ERR"
+      | .panic => "PANIC"
+    | _, _ => "bad-op"
   | "bbt" :: t :: a =>
     match bytesOfHex t, parseItems a with
     | some tailIn, some its =>
@@ -367,7 +379,7 @@ def handle (line : String) : String :=
   let tk := (toks.drop 1).foldl parseTok {}
   let fd := mkF tk
   let r1 := run (mkZ tk none) fd f
-  let usesZ := ["u64b", "cblk", "bb", "bbt", "dict", "tag", "dec-u64b", "dec-cblk", "dec-bb", "dec-bbt", "dec-dict",
+  let usesZ := ["u64b", "cblk", "bb", "bbt", "col", "dict", "tag", "dec-u64b", "dec-cblk", "dec-bb", "dec-bbt", "dec-dict",
     "dec-dictv", "dec-tag"].contains (f.headD "")
   if usesZ then
     let r2 := run (mkZ tk (some [])) fd f
